@@ -92,6 +92,12 @@ Theorem refuted_by_isinstance_on_union : exists P g fd vs fuel, check_prog P = t
 Proof. exact Proofs3.mi_refutes. Qed.
 Print Assumptions refuted_by_isinstance_on_union.
 
+(* `break` (or `continue`) out of a try block skips, in mypy's binder, the assignments of its finally block *)
+Theorem refuted_by_break_through_finally : exists P g fd vs fuel, check_prog P = true /\ check_prog_certified P = false /\
+  lookup (p_funcs P) g = Some fd /\ mems P vs (map snd (f_params fd)) /\ call_fun P fuel g vs = Exn TypeError.
+Proof. exact Proofs3.break_finally_refutes. Qed.
+Print Assumptions refuted_by_break_through_finally.
+
 (* ---- non-vacuity *)
 Example certified_example : check_prog_certified narrow_join_prog = true.
 Proof. vm_compute. reflexivity. Qed.
